@@ -51,3 +51,20 @@ Proof. exact round_agree. Qed.
 Theorem C13_round_int_agree :
   forall b1 b2 x, round_ok x -> F32.is_finite x = true -> in_i32_range (roundps x) -> round_int4 b1 x = round_int4 b2 x.
 Proof. exact round_int_agree. Qed.
+
+(* the hypothesis [round_ok] discharged (Proofs/GenericRound.v): the portable rounding of f32x4::round -- exponent tests,
+   x + 2^23 - 2^23 on the absolute value, the two corrections that never fire, the sign put back -- IS round-to-nearest-even on
+   every binary32 value except -0.5, where it gives +0 for ROUNDPS's -0 *)
+From TS Require Import Proofs.GenericRound.
+Theorem C13_generic_round_is_roundps : forall x, x <> F32.of_bits 3204448256 -> generic_round x = roundps x.
+Proof. exact generic_round_is_roundps. Qed.
+Theorem C13_generic_round_at_neg_half :
+  generic_round (F32.of_bits 3204448256) = B754_zero false /\ roundps (F32.of_bits 3204448256) = B754_zero true.
+Proof. exact generic_round_neg_half. Qed.
+(* hence f32x4::round agrees between all backends on every input but -0.5 ... *)
+Theorem C13_round_agree_all : forall b1 b2 x, x <> F32.of_bits 3204448256 -> round4 b1 x = round4 b2 x.
+Proof. exact round_agree_all. Qed.
+(* ... and round_int (which forgets the sign of zero) on every finite input whose rounding fits an i32 *)
+Theorem C13_round_int_agree_all :
+  forall b1 b2 x, F32.is_finite x = true -> in_i32_range (roundps x) -> round_int4 b1 x = round_int4 b2 x.
+Proof. exact round_int_agree_all. Qed.
